@@ -232,7 +232,7 @@ func (w *world) plugin() *schema.CallableSchema {
 			return "success", stepOut{Message: "hello " + in.Name}
 		},
 	)
-	return schema.NewCallableSchema(step, echoStep(), optStep())
+	return schema.NewCallableSchema(step, echoStep(), optStep(), waitsigStep())
 }
 
 // ------------------------------------------------------------------ hook classification
@@ -762,6 +762,10 @@ func runScenario(sc scenario) (res *result) {
 	res = &result{ID: sc.ID, Results: map[string]execResult{}}
 	if sc.Mode == "client" {
 		runClientScenario(sc, res)
+		return
+	}
+	if sc.Mode == "sharedsig" {
+		runSharedSig(sc, res)
 		return
 	}
 	if sc.Mode == "v1echo" {
@@ -1542,7 +1546,9 @@ func runClientScenario(sc scenario, res *result) {
 			case "err_server":
 				m = atp.RuntimeMessage{MessageID: atp.MessageTypeError, RunID: "", MessageData: atp.ErrorMessage{Error: "fatal", StepFatal: true, ServerFatal: true}}
 			case "err_none":
-				m = atp.RuntimeMessage{MessageID: atp.MessageTypeError, RunID: "", MessageData: atp.ErrorMessage{Error: "note"}}
+				// a non-fatal error: about no run in particular, or (op.Run) about a pending, finished or unknown run
+				run = op.Run
+				m = atp.RuntimeMessage{MessageID: atp.MessageTypeError, RunID: op.Run, MessageData: atp.ErrorMessage{Error: "note"}}
 			case "err_step":
 				m = atp.RuntimeMessage{MessageID: atp.MessageTypeError, RunID: "", MessageData: atp.ErrorMessage{Error: "step fatal without run", StepFatal: true}}
 			case "bad":
